@@ -24,6 +24,7 @@ func init() {
 			"C32.R2 TABLE: page rotations are reduced modulo 360 with the negative remainder corrected",
 			"C32.R3 source: rotatePage composes the delta with the effective (inherited) rotation",
 			"C32.R5 TABLE: addPage makes all four inheritable page attributes explicit on a migrated page; Rotate under an (in)equality with 0",
+			"C32.R6 order: the page-tree walk behind PageDict skips a subtree before merging its inheritable attributes into the shared accumulator",
 			"C32.R4 TABLE: api.Collect extracts pages without the page cache (one page object per occurrence)",
 		},
 		Assumptions: []string{"page selections reach the page operations as types.IntSet values from the pkg/api producers"},
@@ -42,6 +43,8 @@ func runC32(c *Ctx) {
 	checkC32Round4(c)
 	r.MinInst["C32.R5"] = 4
 	checkAddPageKeepsInherited(c)
+	r.MinInst["C32.R6"] = 1
+	checkSkippedSubtreesLeaveNoAttributes(c)
 	var fns []*ssa.Function
 	for _, fn := range p.Funcs {
 		if isSubject(fn) {
@@ -311,5 +314,57 @@ func checkAddPageKeepsInherited(c *Ctx) {
 			}
 		}
 		r.OK("C32.R5", fid, construct, p.Pos(mu.Pos()), "made explicit on the migrated page", true)
+	}
+}
+
+// R6 (order): PageDict walks the page tree with ONE accumulator of inherited attributes. A subtree that does not
+// contain the wanted page is skipped by adding its /Count to the page counter; that has to happen before the node's
+// own attributes are merged into the accumulator, or an earlier sibling's /Rotate, /CropBox, /MediaBox, /Resources
+// stay in effect for the pages of later siblings (every page operation reads them through PageDict). In
+// processPageTreeForPageDictDepth the block that advances the counter (a store through the pointer parameter p) is not
+// dominated by the call of checkInheritedPageAttrs.
+func checkSkippedSubtreesLeaveNoAttributes(c *Ctx) {
+	p, r := c.P, c.R
+	const fid = "pkg/pdfcpu/model.(*XRefTable).processPageTreeForPageDictDepth"
+	fn := p.Func(fid)
+	if fn == nil {
+		r.Bad("C32.R6", fid, "anchor", "", "UNRESOLVED-ANCHOR")
+		return
+	}
+	var counter *ssa.Parameter
+	for _, q := range fn.Params {
+		if q.Name() == "p" {
+			counter = q
+		}
+	}
+	var callBlk *ssa.BasicBlock
+	var callIdx int
+	eachInstr(fn, func(b *ssa.BasicBlock, idx int, i ssa.Instruction) {
+		if call, ok := i.(*ssa.Call); ok {
+			if f := staticCallee(call); f != nil && f.Name() == "checkInheritedPageAttrs" {
+				callBlk, callIdx = b, idx
+			}
+		}
+	})
+	if counter == nil || callBlk == nil {
+		r.Bad("C32.R6", fid, "anchor", p.Pos(fn.Pos()), "UNRESOLVED-ANCHOR: page counter parameter or the call of checkInheritedPageAttrs not found")
+		return
+	}
+	n := 0
+	eachInstr(fn, func(b *ssa.BasicBlock, idx int, i ssa.Instruction) {
+		st, ok := i.(*ssa.Store)
+		if !ok || st.Addr != ssa.Value(counter) {
+			return
+		}
+		n++
+		after := (b == callBlk && idx > callIdx) || (b != callBlk && callBlk.Dominates(b))
+		if after {
+			r.Bad("C32.R6", fid, fmt.Sprintf("subtree skipped#%d", n), p.Pos(st.Pos()), "a subtree that does not contain the wanted page is skipped only after its attributes were merged into the shared accumulator: an earlier sibling's /Rotate, /CropBox, /MediaBox or /Resources then apply to the pages of later siblings — rotate, trim, crop and every other page operation act on wrong inherited values")
+		} else {
+			r.OK("C32.R6", fid, fmt.Sprintf("subtree skipped#%d", n), p.Pos(st.Pos()), "skipped before its attributes are merged", true)
+		}
+	})
+	if n == 0 {
+		r.Bad("C32.R6", fid, "subtree skipped", p.Pos(fn.Pos()), "UNDECIDED: the page counter is never advanced by a subtree's /Count")
 	}
 }
